@@ -108,8 +108,9 @@ static std::vector<Q> toQr(const VectorRational& v)
    return r;
 }
 
-static Verdict run(const Case& c)
+static Verdict runInner(const Case& c)
 {
+   bool basisMode = opts().x.count("prop") && opts().x["prop"] == "C04";
    Verdict v;
    Evidence& e = ev();
    SoPlex sp;
@@ -221,8 +222,55 @@ static Verdict run(const Case& c)
       std::string msg = checkOptimalCert(md, toQr(x), toQr(s), toQr(y), toQr(d), obj, t, nullptr, &zstar);
       if(!msg.empty())
       {
-         v.fail("exact OPTIMAL certificate: " + msg);
-         return v;
+         if(basisMode) e.count("c04.cert_failure_left_to_C03");
+         else
+         {
+            v.fail("exact OPTIMAL certificate: " + msg);
+            return v;
+         }
+      }
+      // C04 (stage exactbasis): the rational vectors are exactly the basic solution of the returned basis - every nonbasic
+      // variable sits exactly on the bound its status names, basic columns have zero reduced cost, basic rows zero dual
+      if(sp.hasBasis())
+      {
+         std::vector<VarStatus> rs(m + 1), cs(n + 1);
+         sp.getBasis(rs.data(), cs.data());
+         std::vector<Q> X = toQr(x), S = toQr(s), Y = toQr(y), Dv = toQr(d);
+         std::ostringstream be;
+         int basic = 0;
+         auto chk = [&](const char* kind, int idx, VarStatus st, const Q & val, const Q & lo, const Q & up, const Q & dualv)
+         {
+            switch(st)
+            {
+            case Solver::BASIC:
+               basic++;
+               if(dualv != 0) be << kind << " " << idx << " BASIC with nonzero dual value " << fmtd(dualv) << "; ";
+               break;
+            case Solver::ON_LOWER:
+               if(!isFin(lo) || val != lo) be << kind << " " << idx << " ON_LOWER but value " << fmtd(val) << " != lower " << fmtd(lo) << "; ";
+               break;
+            case Solver::ON_UPPER:
+               if(!isFin(up) || val != up) be << kind << " " << idx << " ON_UPPER but value " << fmtd(val) << " != upper " << fmtd(up) << "; ";
+               break;
+            case Solver::FIXED:
+               if(lo != up || val != lo) be << kind << " " << idx << " FIXED but value/bounds differ; ";
+               break;
+            case Solver::ZERO:
+               if(val != 0) be << kind << " " << idx << " ZERO but value " << fmtd(val) << "; ";
+               break;
+            default:
+               be << kind << " " << idx << " has an undefined status; ";
+            }
+         };
+         for(int j = 0; j < n; j++) chk("col", j, cs[j], X[j], md.lo[j], md.up[j], Dv[j]);
+         for(int i = 0; i < m; i++) chk("row", i, rs[i], S[i], md.lhs[i], md.rhs[i], Y[i]);
+         if(basic != m) be << basic << " basic variables for " << m << " rows; ";
+         e.count(be.str().empty() ? "exact_basis.consistent" : "exact_basis.inconsistent");
+         if(basisMode && !be.str().empty())
+         {
+            v.fail("exact solve: rational solution is not the basic solution of the returned basis: " + be.str());
+            return v;
+         }
       }
    }
    else if(st == Solver::INFEASIBLE)
@@ -300,6 +348,20 @@ static Verdict run(const Case& c)
       e.count(std::string("undecided_allowed.") + statusName(st));
    }
    v.nontrivial = nonDyadic && m >= 2 && n >= 2 && (st == Solver::OPTIMAL || st == Solver::INFEASIBLE || st == Solver::UNBOUNDED);
+   return v;
+}
+
+static Verdict run(const Case& c)
+{
+   Verdict v = runInner(c);
+   // stage exactbasis (C04) judges the basis clause only; everything else this harness finds belongs to C03
+   if(opts().x.count("prop") && opts().x["prop"] == "C04" && !v.ok && v.msg.find("not the basic solution of the returned basis") == std::string::npos)
+   {
+      ev().count("c04.other_failure_left_to_C03");
+      Verdict w;
+      w.nontrivial = false;
+      return w;
+   }
    return v;
 }
 
